@@ -38,9 +38,7 @@ def run(ctx):
         line, m = degenerate_e2e(rng.fork('d%d' % k), k)
         cases.append(line)
         metas[k] = m
-    res = ctx.component('K-E2E', cases)
-    upd = [gen.gen_upd(rng.fork('u%d' % k), 100000 + k)[0] for k in range(ctx.budget(300, 10000))]
-    ctx.component('K-UPD+K-LIK', upd)
+    res = ctx.component('K-E2E(status, labels, start states)', cases, keys={'status', 'labels', 'start'})
     graphs = [gen.gen_graph_random(rng.fork('g%d' % k), 500000 + k)[0] for k in range(ctx.budget(200, 3000))]
     ctx.component('K-GRAPH', graphs)
     n_eval = 0
